@@ -107,4 +107,61 @@ def imax (a b : Int) : Int := if b > a then b else a
 def imin (a b : Int) : Int := if b < a then b else a
 def floordiv (a b : Int) : Int := Int.fdiv a b
 
+/-! ### vocabulary of the translated scoring-loop skeletons (`GenB`) -/
+
+/-- what an opaque piece of library code did: returned a value, raised an exception of class `cls`, or emitted a warning of category `cls`
+and — had the warning not been escalated to an error — would have gone on to return `x` -/
+inductive Out (α : Type) where
+  | val (x : α)
+  | exc (cls : String)
+  | warn (cls : String) (x : α)
+  deriving Repr
+
+/-- `with warnings.catch_warnings(): simplefilter("error", category=W)…; try: x = BODY except (E…): pass` —
+`handled` = the classes of the `except` clause, `escalated` = the warning categories turned into errors, `old` = the value `x` had before.
+`.error cls`: the exception propagates out of the enclosing function.  (Classes are matched by name: subclass relationships are resolved by
+whoever classifies the real exception into one of the names.) -/
+def tryExcept (handled escalated : List String) (o : Out α) (old : α) : Except String α :=
+  match o with
+  | .val x => .ok x
+  | .exc c => if handled.contains c then .ok old else .error c
+  | .warn c x => if escalated.contains c then (if handled.contains c then .ok old else .error c) else .ok x
+
+/-- `itertools.product(*ls)`: first list varies slowest -/
+def product : List (List β) → List (List β)
+  | [] => [[]]
+  | l :: ls => l.flatMap (fun c => (product ls).map (c :: ·))
+
+/-- `np.sum` of an integer vector -/
+def sumI (l : List Int) : Int := l.foldl (· + ·) 0
+
+def choose : Nat → Nat → Nat
+  | _, 0 => 1
+  | 0, _ + 1 => 0
+  | n + 1, k + 1 => choose n k + choose n (k + 1)
+
+/-- `scipy.special.comb(n, k)` for integers (0 outside `0 ≤ k ≤ n`), as a scalar -/
+def comb [NatCast α] (n k : Int) : α := if n < 0 ∨ k < 0 then ((0 : Nat) : α) else ((choose n.toNat k.toNat : Nat) : α)
+
+/-! ### vocabulary of the translated `JointUtility` methods (`GenJ`) -/
+
+/-- Python's builtin `sum(iterable)`: left fold starting from the integer 0 -/
+def sumGen [Add α] [NatCast α] (l : List α) : α := l.foldl (· + ·) (((0 : Nat)) : α)
+
+/-- `w * v`, `w * m` for a scalar `w` and a 1-D / 2-D array -/
+def smul1 [Mul α] (w : α) (v : List α) : List α := v.map (fun x => w * x)
+def smul2 [Mul α] (w : α) (m : List (List α)) : List (List α) := m.map (fun row => row.map (fun x => w * x))
+
+/-- `np.sum(np.stack(vs), axis=0)` for 1-D arrays of equal length: element-wise sum, first array first -/
+def sumAxis0V [Add α] (vs : List (List α)) : List α :=
+  match vs with
+  | [] => []
+  | v :: rest => rest.foldl (fun acc x => List.zipWith (· + ·) acc x) v
+
+/-- the same for 2-D arrays of equal shape -/
+def sumAxis0M [Add α] (ms : List (List (List α))) : List (List α) :=
+  match ms with
+  | [] => []
+  | m :: rest => rest.foldl (fun acc x => List.zipWith (fun r s => List.zipWith (· + ·) r s) acc x) m
+
 end Np
